@@ -64,6 +64,14 @@ def run(ctx):
                 continue
             programs += 1
             c = ent["conform"]
+            if ent.get("shared_diff"):
+                # the verdict below is about the single-target output; the same request next to other targets printed other text
+                ctx.finding("multi-target-output-differs/" + target,
+                            "%s output of a run over all targets differs from its single-target output in %s" % (target, ent["shared_diff"][:3]),
+                            {"dsl": item["text"], "target": target, "files": ent["shared_diff"][:5],
+                             "broken": "correspondence: the validated text is not what `compile` writes next to other targets"}, True)
+            else:
+                ctx.count("multi_target_output_identical")
             if "load_error" in c:
                 sig = "%s/ill-scoped" % target
                 ctx.count("reasons_examined")
